@@ -464,6 +464,7 @@ func TestDrive_C02(t *testing.T) {
 			}
 			abortWhileExhausted(rng, n/5, add)
 			visitedBetweenOuterAttempts(rng, n/4, add)
+			nestedRetryExhaustedByDuration(rng, n/5, add)
 		})
 }
 
@@ -676,7 +677,12 @@ func slowRetryListenerCancelled(rng *Rng, n int, add func(InstD, []ReqD, string)
 			stack = []PolD{{K: "Retry", MaxRetries: 1, Handle: []CallD{{K: "Errors", Errs: []ErrD{{K: "Sent", A: 5}}}}}, rp}
 		}
 		d0 := Pick(rng, []int64{0, 512})
-		at := d0 + 1 + rng.I64n(l-1)
+		// in the listener of which failed attempt: any of them, the last one (on which the policy gives up) included
+		k := int64(rng.Intn(int(rp.MaxRetries) + 1))
+		if rng.Chance(40) {
+			k = rp.MaxRetries
+		}
+		at := k*(d0+l+rp.Delay) + d0 + 1 + rng.I64n(l-1)
 		rq := ReqD{Stack: stack, CtxKey: -1, Entry: Pick(rng, append(append([]string{}, execEntries...), plainEntries...)),
 			Script: []FnStepD{{Out: OutD{Err: &ErrD{K: "Sent", A: 0}}, Dur: d0}}}
 		switch rng.Intn(5) {
@@ -696,6 +702,36 @@ func slowRetryListenerCancelled(rng *Rng, n int, add func(InstD, []ReqD, string)
 			reqs = append(reqs, ReqD{Stack: rq.Stack, CtxKey: -1, Entry: rq.Entry, Gap: 4096, Script: []FnStepD{{Out: OutD{R: 0}, Dur: 256}}})
 		}
 		add(InstD{}, reqs, "slow-retry-listener-cancelled")
+	}
+}
+
+// nested retry policies, the inner one exhausted by its MAX DURATION (its retry count is generous or unlimited): exhaustion is
+// remembered for the rest of the execution, so when the outer policy re-enters the inner one it hands results through without
+// judging them again -- no second OnRetriesExceeded, no further retries of its own, no ExceededError around an ExceededError.
+func nestedRetryExhaustedByDuration(rng *Rng, n int, add func(InstD, []ReqD, string)) {
+	for i := 0; i < n; i++ {
+		dur := int64(1+rng.Intn(3)) * 1024
+		inner := PolD{K: "Retry", MaxRetries: Pick(rng, []int64{4, 6, 9}), MaxDuration: dur*int64(1+rng.Intn(3)) + 300, Delay: Pick(rng, []int64{0, 0, 512}), ReturnLast: rng.Chance(30)}
+		outer := PolD{K: "Retry", MaxRetries: int64(1 + rng.Intn(3)), Delay: Pick(rng, []int64{0, 2048}), ReturnLast: rng.Chance(30)}
+		stack := []PolD{outer, inner}
+		if rng.Chance(30) {
+			stack = []PolD{outer, {K: "Timeout", Limit: 1 << 30}, inner}
+		}
+		script := []FnStepD{{Out: OutD{Err: &ErrD{K: "Sent", A: 0}}, Dur: dur}}
+		if rng.Chance(30) {
+			// the function recovers late: after the inner policy is exhausted, during a later outer attempt
+			for k := 0; k < 4+rng.Intn(4); k++ {
+				script = append(script, FnStepD{Out: OutD{Err: &ErrD{K: "Sent", A: 0}}, Dur: dur})
+			}
+			script = append(script, FnStepD{Out: OutD{R: 1}, Dur: 256})
+		}
+		rq := ReqD{Stack: stack, CtxKey: -1, Entry: Pick(rng, append(append([]string{}, execEntries...), plainEntries...)), Script: script}
+		if strings.HasPrefix(rq.Entry, "Run") {
+			for k := range rq.Script {
+				rq.Script[k].Out.R = 0
+			}
+		}
+		add(InstD{}, []ReqD{rq}, "nested-retry-exhausted-by-duration")
 	}
 }
 
@@ -800,7 +836,7 @@ func limiterWaitScenarios(rng *Rng, n int, add func(InstD, []ReqD, string)) {
 
 func TestDrive_C16(t *testing.T) {
 	pf := execProfile{name: "C16", kinds: allKinds, maxDepth: 5, extPct: 10, coopPct: 40, maxReqs: 4, hedgePct: 20}
-	driveExec(t, "C16", pf, 400, 12000, "random stacks and histories as for C01, with every policy listener registered and executor listeners registered in random subsets; plus retry policies around a rate limiter with a max wait time whose granted-after-a-wait attempt is cancelled during the wait (after refused attempts). "+execRule,
+	driveExec(t, "C16", pf, 400, 12000, "random stacks and histories as for C01, with every policy listener registered and executor listeners registered in random subsets; plus retry policies around a rate limiter with a max wait time whose granted-after-a-wait attempt is cancelled during the wait (after refused attempts); plus nested retry policies whose inner policy is exhausted by its max duration and re-entered by the outer one. "+execRule,
 		func(w *CaseWriter, rng *Rng, add func(InstD, []ReqD, string)) {
 			n := 30
 			if envTier() == "thorough" {
@@ -808,6 +844,7 @@ func TestDrive_C16(t *testing.T) {
 			}
 			limiterWaitScenarios(rng, n, add)
 			abortWhileExhausted(rng, n, add)
+			nestedRetryExhaustedByDuration(rng, n, add)
 		})
 }
 
